@@ -1,0 +1,20 @@
+//go:build verif
+
+// Contracts for the govc verifier (/verif). Comment-only: this file contains no code.
+package custom
+
+//@ // ---- C02: the polling loop of the custom backend ---------------------------------------------------
+//@ // every poll decodes into memory no published table shares (ownership precondition of Decode, see
+//@ // externs/custom.spec), the active table changes only to a table NewTableCustom built without error,
+//@ // and a rejected body (transport error, non-200, undecodable, 'null', invalid definitions) changes nothing
+//@ func customRoutes
+//@   props C02
+//@   requires cfg != nil && ch != nil && buildReady() && customURLParses()
+//@   assigns *
+//@   ensures nopanic
+//@   loop 1 invariant cfg != nil && ch != nil && buildReady()
+//@   loop 1 iteration ensures activeTable == old(activeTable) || (activeTable != nil && customBuilt[activeTable] && publishedT[activeTable])
+//@
+//@ func customRoutes$1
+//@   trusted
+//@   assigns nothing
